@@ -67,7 +67,8 @@ def build_request(ctx, framing, tier, expect=False, follow=True):
         else:
             head += te
     elif framing == 'upgrade':
-        head += K(b'Connection: ') + case_variant(ctx, b'upgrade') + K(b'\r\nUpgrade: x\r\n')
+        pre = [b'', b'keep-alive, ', b'x,'][ctx.choose(3, 'conn-list')]
+        head += K(b'Connection: ') + K(pre) + case_variant(ctx, b'upgrade') + K(b'\r\nUpgrade: x\r\n')
         body = sym_bytes(ctx, 5)
         wire_body = body
     if expect:
